@@ -9,7 +9,8 @@
  *              1: one pthread per stream, each issues its own events (concurrently)
  *    dictionary entry j (base key j+1; base key 0 is the reserved "N/A"):
  *              name/attributes/convertor are gstr('k'|'a'|'c', j, len), info length ilen
- *    ninfo_i   number of key/value infos attached to stream i (hr_id "s<i>")
+ *    ninfo_i   number of key/value infos attached to stream i (hr_id "s<i>"); a number above 15: one
+ *              info "big" whose value has that many characters
  *    event     stream, key (2*base + 0 start / 1 end), user flags, taskpool id,
  *              event id, info: '-' (NULL pointer) or a seed (info byte m = ibyte(seed, m))
  * Every case writes <casefile>.d/c<index>-0.prof (kept for the model driver,
@@ -32,7 +33,7 @@
 #define MAXK 64
 #define MAXS 8
 #define MAXE 8192
-#define CASE_SECONDS 60
+#define CASE_SECONDS 20
 
 typedef struct { int sid, key, uflags, hasinfo, seed; uint32_t tp; uint64_t id; } ev_t;
 static int nk, klen[MAXK][4];
@@ -113,6 +114,10 @@ static void write_profile(const char *base, int pages, int mode) {
     for (int i = 0; i < ns; i++) {
         str[i] = parsec_profiling_stream_init(4096, "s%d", i);
         if (!str[i]) { note_rc(-99); continue; }
+        if (ninfo[i] > 15) {            /* one info whose value has ninfo[i] characters */
+            char *val = malloc((size_t)ninfo[i] + 1); memset(val, 'v', (size_t)ninfo[i]); val[ninfo[i]] = 0;
+            parsec_profiling_stream_add_information(str[i], "big", val); free(val);
+        } else
         for (int m = 0; m < ninfo[i]; m++) {
             char k[64], val[256]; gstr(k, 'i', i * 16 + m, 4 + (i + m) % 9); gstr(val, 'v', i * 16 + m, 3 + (i * 5 + m * 11) % 40);
             parsec_profiling_stream_add_information(str[i], k, val);
